@@ -3,11 +3,13 @@ HASH = ["secp256k1_sha256_write", "secp256k1_sha256_finalize"]
 ADAPT_FN = ["secp256k1_musig_adapt", "secp256k1_musig_extract_adaptor", "secp256k1_scalar_set_b32", "secp256k1_scalar_get_b32",
             "secp256k1_scalar_add", "secp256k1_scalar_negate"]
 UNITS = [
-    U("C12.adapt", ["C12"], "harness/C12/adapt.c", "h_adapt", functions=ADAPT_FN, timeout=300, min_obl=100, replay=False, unwind=34,
+    U("C12.adapt", ["C12"], "harness/C12/adapt.c", "h_adapt", functions=ADAPT_FN, timeout=300, min_obl=100, replay=False, unwind=34, solver="cadical",
       note="pure scalar arithmetic, no oracle: value-level contract of musig_adapt for all 2^512 (s,t), both parities, NULL/alias combinations"),
-    U("C12.extract", ["C12"], "harness/C12/adapt.c", "h_extract", functions=ADAPT_FN, timeout=300, min_obl=100, replay=False, unwind=34,
+    U("C12.extract", ["C12"], "harness/C12/adapt.c", "h_extract", functions=ADAPT_FN, timeout=300, min_obl=100, replay=False, unwind=34, solver="cadical",
       note="pure scalar arithmetic, no oracle: value-level contract of musig_extract_adaptor for all inputs"),
 ]
-for _c, _t in (("range", "results < n"), ("ea", "extract(adapt(s,t,par),s,par) == t"), ("ae", "adapt(s,extract(sig,s,par),par) == sig")):
-    UNITS.append(U("C12.adapt_inverse_lemma_" + _c, ["C12"], "harness/C12/adapt.c", "h_inverse_lemma_" + _c, functions=[], timeout=300, min_obl=1, replay=False,
+for _n, _e, _t in (("C12.adapt_inverse_lemma_range", "h_inverse_lemma_range", "results < n"), ("C12.adapt_inverse_lemma_ea", "h_inverse_lemma_ea", "extract(adapt(s,t,par),s,par) == t"),
+                   ("C12.adapt_inverse_lemma_ae", "h_inverse_lemma_ae", "adapt(s,extract(sig,s,par),par) == sig"),
+                   ("C12.extract_form_lemma", "h_extract_form_lemma", "the sum form used in C12.extract equals the difference sig.s - pre.s / pre.s - sig.s")):
+    UNITS.append(U(_n, ["C12"], "harness/C12/adapt.c", _e, functions=[], timeout=300, min_obl=1, replay=False, solver="cadical",
                    note="lemma over the value-level contracts of C12.adapt and C12.extract (320-bit arithmetic, all s,t < n, both parities): " + _t))
